@@ -41,6 +41,8 @@ struct Case {
     self_signed: bool,
     /// chain sent in x5chain after the EE (true = include the CA)
     send_ca: bool,
+    /// the deviation needs this CA key type (do not rotate)
+    fix_ca: bool,
 }
 
 fn case(name: &str, truth: Truth, f: impl Fn(&mut CertSpec) + Send + Sync + 'static) -> Case {
@@ -52,6 +54,19 @@ fn case(name: &str, truth: Truth, f: impl Fn(&mut CertSpec) + Send + Sync + 'sta
         edit: Arc::new(f),
         self_signed: false,
         send_ca: true,
+        fix_ca: false,
+    }
+}
+
+impl Case {
+    fn with_ca(mut self, k: KeyKind) -> Case {
+        self.ca_key = k;
+        self.fix_ca = true;
+        self
+    }
+    /// cause class used in signatures: the name without a parenthesised variant suffix
+    fn cause(name: &str) -> String {
+        name.split('(').next().unwrap_or(name).to_string()
     }
 }
 
@@ -93,7 +108,7 @@ fn rules() -> Vec<Case> {
     let mut c = case("self-signed:non-ca", Violates("self-signed"), |_s| {});
     c.self_signed = true;
     v.push(c);
-    let mut c = case("self-signed:non-ca-no-basicConstraints", Violates("self-signed"), |s| {
+    let mut c = case("self-signed:non-ca(no-basicConstraints)", Violates("self-signed"), |s| {
         s.without_bc();
     });
     c.self_signed = true;
@@ -102,21 +117,18 @@ fn rules() -> Vec<Case> {
     let mut c = case("sigalg:md5WithRSA", Violates("signature-algorithm"), |s| {
         s.sig_alg = SigAlg::RsaPkcs1(Md::Md5);
     });
-    c.ca_key = KeyKind::Rsa2048;
-    v.push(c);
+    v.push(c.with_ca(KeyKind::Rsa2048));
     let mut c = case("sigalg:sha1WithRSA", Violates("signature-algorithm"), |s| {
         s.sig_alg = SigAlg::RsaPkcs1(Md::Sha1);
     });
-    c.ca_key = KeyKind::Rsa2048;
-    v.push(c);
+    v.push(c.with_ca(KeyKind::Rsa2048));
     v.push(case("sigalg:ecdsa-with-SHA1", Violates("signature-algorithm"), |s| {
         s.sig_alg = SigAlg::Ecdsa(Md::Sha1);
     }));
     let mut c = case("sigalg:rsapss-sha1", Violates("signature-algorithm"), |s| {
         s.sig_alg = SigAlg::RsaPss(Md::Sha1);
     });
-    c.ca_key = KeyKind::Rsa2048;
-    v.push(c);
+    v.push(c.with_ca(KeyKind::Rsa2048));
     // --- key: curve / RSA size ---------------------------------------------------------------
     let mut c = case("curve:secp256k1", Violates("curve"), |_s| {});
     c.ee_key = KeyKind::Secp256k1;
@@ -279,8 +291,7 @@ fn controls() -> Vec<Case> {
         let mut c = case(nm, Control, move |s| {
             s.sig_alg = a.clone();
         });
-        c.ca_key = ca;
-        v.push(c);
+        v.push(c.with_ca(ca));
     }
     v
 }
@@ -425,7 +436,7 @@ fn main() {
     let thorough = !run.quick();
     for (i, base) in rules().into_iter().chain(controls()).enumerate() {
         let fixed_ee = base.ee_key != KeyKind::Ed25519;
-        let fixed_ca = base.ca_key != KeyKind::P256;
+        let fixed_ca = base.fix_ca;
         let mut ee_kinds: Vec<KeyKind> = if fixed_ee { vec![base.ee_key] } else { EE_KEYS.to_vec() };
         if thorough && !fixed_ee {
             ee_kinds.extend_from_slice(EE_KEYS_MORE);
@@ -516,8 +527,16 @@ fn main() {
             (Truth::Control, s) if s != "signed" => run.count("normal_path_refused_control", 1),
             _ => {}
         }
+        let is_rule = matches!(o.truth, Truth::Violates(_));
+        let cause = Case::cause(&o.name);
         for (mode, state, error, failures, all) in &o.reads {
-            let cred_fail: Vec<&String> = failures.iter().filter(|f| f.starts_with("signingCredential.")).collect();
+            // any signingCredential.* failure counts for a violating certificate (the statement asks for
+            // "a signingCredential failure code"); for a control only the profile codes count — an
+            // `untrusted` verdict is a trust decision (C05), not one of "these checks"
+            let cred_fail: Vec<&String> = failures
+                .iter()
+                .filter(|f| f.starts_with("signingCredential.") && (is_rule || f.as_str() != "signingCredential.untrusted"))
+                .collect();
             let accepted = state == "Valid" || state == "Trusted";
             let witness = json!({
                 "case": o.name, "truth": format!("{:?}", o.truth), "keys": o.keys, "mode": mode,
@@ -527,7 +546,7 @@ fn main() {
                 "replay": "embed x5chain with any key-matching direct COSE signer into a PNG, read with verify_trust as in mode",
             });
             if state == "Panic" {
-                run.violation(&format!("panic-reading|{}", o.name), "SDK panicked while validating", witness);
+                run.violation(&format!("panic-reading|{cause}"), "SDK panicked while validating", witness);
                 continue;
             }
             if state == "Err" {
@@ -542,13 +561,13 @@ fn main() {
                     run.sample(&format!("rule:{rule}"), 1, witness.clone());
                     if accepted {
                         run.violation(
-                            &format!("accepted|{}|{}", o.name, mode),
+                            &format!("accepted|{cause}"),
                             &format!("certificate violating '{rule}' ({}) read as {state}", o.name),
                             witness,
                         );
                     } else if cred_fail.is_empty() {
                         run.violation(
-                            &format!("no-credential-code|{}|{}", o.name, mode),
+                            &format!("no-credential-code|{cause}"),
                             &format!("certificate violating '{rule}' ({}) rejected ({state}) but without any signingCredential.* failure code", o.name),
                             witness,
                         );
@@ -558,7 +577,7 @@ fn main() {
                     if !cred_fail.is_empty() {
                         run.nontrivial(format!("{kind}|{}|{}|{mode}|{outcome}", o.name, o.keys));
                         run.violation(
-                            &format!("control-flagged|{}|{}", o.name, mode),
+                            &format!("control-flagged|{cause}"),
                             &format!("conforming certificate ({}) flagged with {:?}", o.name, cred_fail),
                             witness,
                         );
